@@ -89,6 +89,17 @@ def dropHandles : Nat → St → List Handle → St
     | none => dropHandles fuel st rest
   | fuel+1, st, _ :: rest => dropHandles fuel st rest
 
+/-- receivers embedded in a message leave the program's hands -/
+def markInMsg (st : St) (hs : List Handle) : St :=
+  hs.foldl (fun s h => match h with | .rcv d => modify s d (fun x => { x with rx := .inMsg }) | _ => s) st
+
+/-- the handles inside a received message become program-held -/
+def unpack (st : St) (hs : List Handle) : St :=
+  hs.foldl (fun s h => match h with
+    | .snd d => modify s d (fun x => { x with senders := x.senders + 1 })
+    | .rcv d => modify s d (fun x => { x with rx := .held })
+    | .shm _ => s) st
+
 def handlesCount (st : St) : Nat := st.chans.foldl (fun a ch => a + ch.queue.foldl (fun b m => b + m.handles.length + 1) 1) 1
 
 def step (st : St) : Op → St × Res
@@ -108,7 +119,7 @@ def step (st : St) : Op → St × Res
       if ch.senders = 0 then (st, .invalid)
       else
         -- receivers embedded in the message leave the program's hands whatever happens next
-        let st1 := hs.foldl (fun s h => match h with | .rcv d => modify s d (fun x => { x with rx := .inMsg }) | _ => s) st
+        let st1 := markInMsg st hs
         if (rxAlive st).contains c then
           (modify st1 c fun ch => { ch with queue := ch.queue ++ [⟨tag, hs⟩] }, .ok)
         else
@@ -123,11 +134,7 @@ def step (st : St) : Op → St × Res
         | m :: q =>
           -- the handles inside the message become program-held
           let st1 := modify st c fun ch => { ch with queue := q }
-          let st2 := m.handles.foldl (fun s h => match h with
-            | .snd d => modify s d (fun x => { x with senders := x.senders + 1 })
-            | .rcv d => modify s d (fun x => { x with rx := .held })
-            | .shm _ => s) st1
-          (st2, .msg m.tag m.handles)
+          (unpack st1 m.handles, .msg m.tag m.handles)
         | [] => if senderExists st c then (st, .empty) else (st, .disconnected)
   | .dropReceiver c =>
     match st.chans[c]? with
